@@ -20,6 +20,22 @@ MISSED = {  # seeded change -> what was added to the check after it was missed
  "C13-d": "walks over partial (witness / root-only) databases before and between walks of the full one",
  "C14-c": "a second independent tree alive at the same time, reads interleaved",
  "C17-c": "the empty byte string as a buffered value",
+ # round 3
+ "C01-e": "DEPTH: ladder histories (every prefix of a 36-48 byte key stored: paths of 70-100 nodes)",
+ "C04-f": "SCALE: batches of 250-420 operations (well over 1024 buffered database entries)",
+ "C05-e": "batches that end on a root assigned to batch.root_hash (an earlier root / a root whose body is not in the database)",
+ "C05-f": "savepoints: an inner block on the batch trie, abandoned and caught inside the batch",
+ "C06-e": "refused writes (non-bytes value, key leaving a stored path part-way) inside pruning histories",
+ "C09-e": "monitor robustness: a met value that is not a byte string is a violation (was a monitor crash = exit 3)",
+ "C09-f": "'from the root' also spelled traverse_from(root_node, prefix)",
+ "C10-e": "several generators of one iterator alive at once (zip(keys(), values()), a walk paused around another)",
+ "C11-e": "the single empty sub-segment explore(p, [()])",
+ "C14-e": "histories carried on through objects re-opened with from_db",
+ "C14-f": "values of 63 / 64 / 65 bytes (the size of an interior node), 64-byte default",
+ "C15-f": "pattern keys (runs of equal bits: XORs that are long runs of ones), key sizes 7 and 9",
+ "C16-e": "encoders handed parts of the wrong size must refuse or still round-trip",
+ "C17-f": "blocks entered while the caller is handling an unrelated exception",
+ "C18-f": "from_db with an out-of-range key_size",
 }
 print("| id | change (abridged) | needs | monitor(s) that fired | first run |")
 print("|---|---|---|---|---|")
